@@ -581,6 +581,114 @@ class World:
             self.keep(r_src, r_dst)
         return res
 
+    # ---- a slice object kept by the caller and used again
+    def reuse_kept_slice(self):
+        """The user keeps `row = plate[sel]` and uses it for several operations.  Whatever happened in between, the
+        slice still denotes the wells of the plate it was taken from: every use must give the same result as a *fresh*
+        slice `plate[sel]` of that original plate (differential oracle, run in an oracle section)."""
+        rng = self.rng
+        pp = PP()
+        from .handlers import same_container_state
+        pn = self.plates()
+        if not pn:
+            return None
+        if not getattr(self, 'kept', None) or rng.random() < 0.3:
+            name = rng.choice(pn)
+            plate = self.objs[name]
+            if not any(a > 0 for w in plate.wells.flatten() for a in w.contents.values()):
+                return None
+            sel, idx, shape = rand_selector(rng, plate, ['row', 'two', 'rowslice', 'colslice', 'cell_tuple', 'row_slice_col'])
+            self.kept = {'slice': plate[sel], 'plate': plate, 'sel': sel, 'idx': idx, 'name': name, 'uses': 0}
+        k = self.kept
+        plate, sel, idx = k['plate'], k['sel'], k['idx']
+        wells = [plate.wells[ij] for ij in idx]
+        vol = min(R.measure(w.contents, 'L') for w in wells)
+        if vol <= 0:
+            self.kept = None
+            return None
+        kind = rng.choice(['to_plate', 'to_plate', 'to_container', 'remove', 'fill'])
+        others = [n for n in pn if self.objs[n] is not plate]
+        cn = self.containers()
+        q = spell(rng, vol * rng.uniform(0.02, 0.2), 'L')
+        call = None
+        if kind == 'to_plate' and others:
+            dplate = self.objs[rng.choice(others)]
+            n_src = len(idx)
+            # a destination of the same shape (or a single well) on another plate
+            try:
+                if dplate.wells.shape[0] >= max(i for i, j in idx) + 1 and dplate.wells.shape[1] >= max(j for i, j in idx) + 1 \
+                        and len(set(i for i, j in idx)) * len(set(j for i, j in idx)) == n_src:
+                    rows = sorted(set(i for i, j in idx))
+                    cols = sorted(set(j for i, j in idx))
+                    if rows == list(range(rows[0], rows[-1] + 1)) and cols == list(range(cols[0], cols[-1] + 1)):
+                        dsel = (slice(rows[0] + 1, rows[-1] + 1), slice(cols[0] + 1, cols[-1] + 1))
+                    else:
+                        dsel = (1, 1)
+                else:
+                    dsel = (1, 1)
+                room = min(self.room_L(dplate.wells[ij]) for ij in R.ref_address(list(dplate.row_names), list(dplate.column_names), dsel)[0])
+                if dsel == (1, 1):
+                    room = room / n_src
+                if room > 0:
+                    q = spell(rng, min(vol * 0.2, room * 0.5) * rng.uniform(0.1, 1), 'L')
+                    call = lambda s_: pp.Plate.transfer(s_, dplate[dsel], q)      # noqa
+            except (R.Reject, R.Unjudged):
+                call = None
+        elif kind == 'to_container' and cn:
+            d = self.objs[rng.choice(cn)]
+            if self.room_L(d) > vol * len(idx):
+                call = lambda s_: pp.Container.transfer(s_, d, q)      # noqa
+        elif kind == 'remove':
+            what = rng.choice([R.LIQUID, R.SOLID, rng.choice(self.subs)])
+            call = lambda s_: s_.remove(what)      # noqa
+        elif kind == 'fill':
+            solv = rng.choice(liquids(self.subs))
+            cur = max(R.measure(w.contents, 'L') for w in wells)
+            room = min(self.room_L(w) for w in wells)
+            if room > 0:
+                q2 = spell(rng, cur + room * rng.uniform(0.1, 0.6), 'L')
+                call = lambda s_: s_.fill_to(solv, q2)      # noqa
+        if call is None:
+            return None
+        step = {'op': 'reuse_kept_slice', 'plate': k['name'], 'sel': sel_json(sel), 'kind': kind, 'use': k['uses'] + 1}
+        res, exc = self.do('reuse_kept_slice', step, lambda: call(k['slice']))
+        k['uses'] += 1
+        # oracle: a fresh slice of the original plate
+        with M.oracle():
+            try:
+                exp = call(plate[sel])
+                exp_exc = None
+            except Exception as e:   # noqa
+                exp, exp_exc = None, e
+        M.count('KEPT.compare')
+        M.bucket(f'C04/kept_slice/{kind}/use{min(k["uses"], 3)}')
+        bad = None
+        if (exc is None) != (exp_exc is None):
+            bad = f'outcome {type(exc).__name__ if exc else "ok"} vs {type(exp_exc).__name__ if exp_exc else "ok"}'
+        elif exc is None:
+            ra = res if isinstance(res, tuple) else (res,)
+            rb = exp if isinstance(exp, tuple) else (exp,)
+            for a, b in zip(ra, rb):
+                if isinstance(a, pp.Plate):
+                    for ij in [(i, j) for i in range(a.wells.shape[0]) for j in range(a.wells.shape[1])]:
+                        d_ = same_container_state(a.wells[ij], b.wells[ij])
+                        if d_:
+                            bad = f'well {ij}: {d_}'
+                            break
+                elif isinstance(a, pp.Container):
+                    d_ = same_container_state(a, b)
+                    if d_:
+                        bad = d_
+                if bad:
+                    break
+        if bad:
+            M.violate(['C04', 'C07', 'C02', 'C01'], 'KEPT', f'C04:kept_slice_ne_fresh_slice_of_its_plate:{kind}:use{min(k["uses"], 3)}',
+                      {'kind': kind, 'use': k['uses'], 'selector': repr(sel), 'diff': bad, 'program': self.log[-4:]})
+            self.kept = None
+        elif k['uses'] >= 2:
+            M.note_nontrivial('C04', ('kept', kind, k['uses'], repr(sel)))
+        return res
+
     # ---- remove / fill_to / dilute
     def remove(self, target=None, what=None, partial=None):
         rng = self.rng
@@ -713,7 +821,7 @@ class World:
         ops = {
             'cc': self.transfer_cc, 'cp': self.transfer_cp, 'pc': self.transfer_pc, 'pp': self.transfer_pp,
             'remove': self.remove, 'fill': self.fill_to, 'observe': self.observe,
-            'newc': self.add_container,
+            'newc': self.add_container, 'kept': self.reuse_kept_slice,
         }
         w = weights or {'cc': 4, 'cp': 4, 'pc': 2, 'pp': 3, 'remove': 1, 'fill': 2, 'observe': 1, 'newc': 1}
         k = rng.choices(list(w.keys()), list(w.values()))[0]
